@@ -2,6 +2,7 @@ import Driver.Loop
 import Driver.Codec
 import PyGqlModel.Coerce
 import PyGqlModel.CoerceExec
+import PyGqlModel.PyNum
 open PyGql PyGql.Coerce
 
 /-! Line-protocol driver of C07 (wire formats: harness/corr/C07_universe.py). -/
@@ -10,11 +11,7 @@ namespace C07Codec
 
 def optInt (j : J) : Option Int := match j with | .num n => some n | _ => none
 
-def clsOf (j : J) (k : String) : FCls :=
-  match j.strD k with
-  | "inf" => .inf
-  | "nan" => .nan
-  | _ => .finite
+
 
 partial def pvOfWire : J → PV
   | .null => .none
@@ -45,16 +42,12 @@ partial def jvOfWire : J → JV
   | .null => .null
   | .bool b => .bool b
   | .num n => .int n
-  | .str s => .str s none none
+  | .str s => .str s
   | .arr a => .list (a.map jvOfWire)
   | j@(.obj _) =>
     match j.get? "f", j.get? "s", j.get? "o" with
-    | some (.str t), _, _ => .float t (optInt (j.getD "int")) (clsOf j "cls")
-    | _, some (.str s), _ =>
-      let flt := match j.getD "flt" with
-        | f@(.obj _) => some (f.strD "r", optInt (f.getD "int"), clsOf f "cls")
-        | _ => none
-      .str s (optInt (j.getD "i10")) flt
+    | some (.str t), _, _ => .float t
+    | _, some (.str s), _ => .str s
     | _, _, some (.arr kvs) => .obj (kvs.map fun kv =>
         match kv with
         | .arr [.str k, v] => (k, jvOfWire v)
@@ -65,7 +58,7 @@ partial def litOfWire (j : J) : Lit :=
   match j.strD "k" with
   | "null" => .null
   | "int" => .int (j.intD "v")
-  | "float" => .float (j.strD "v") (clsOf j "cls")
+  | "float" => .float (j.strD "v")
   | "str" => .str (j.strD "v")
   | "bool" => .bool (j.boolD "v")
   | "enum" => .enum (j.strD "v")
@@ -76,6 +69,13 @@ partial def litOfWire (j : J) : Lit :=
       | .arr [.str k, v] => (k, litOfWire v)
       | _ => ("", .null))
   | _ => .null
+
+partial def selOfWire (j : J) : SelT :=
+  .mk (j.strD "key") (j.strD "field") (pairs' (j.arrD "args")) ((j.arrD "sub").map selOfWire)
+where pairs' (l : List J) : List (String × Lit) := l.map fun kv =>
+  match kv with
+  | .arr [.str n, v] => (n, litOfWire v)
+  | _ => ("", .null)
 
 def defaultOfWire (j : J) : Option PV :=
   match j.get? "default" with
@@ -96,7 +96,40 @@ def namedOfWire (j : J) : String × NamedT :=
     | _ => .input ((j.arrD "fields").map fieldOfWire)
   (j.strD "name", k)
 
-def regOfWire (j : J) : Reg := { types := (j.arrD "types").map namedOfWire }
+/-! Sample custom scalars (user code) handed to the model as its parser PARAMETERS; the same behaviours are implemented
+    as real `ScalarType`s in harness/corr/C07.py (`custom_scalar`). -/
+def sampleParse (impl : String) (n : String) (v : JV) : ParseOut :=
+  match impl with
+  | "even" =>
+    match v with
+    | .int k => if k % 2 == 0 then .value (.int (k / 2)) else .refused
+    | _ => .refused
+  | "tagged" =>
+    match v with
+    | .obj _ => .raised
+    | .str s => .value (.dict [("v", .str s)])
+    | _ => .refused
+  | _ => defaultScalarParse n v
+
+def sampleParseLiteral (impl : String) (n : String) (l : Lit) : ParseOut :=
+  match impl with
+  | "even" =>
+    match l with
+    | .int k => if k % 2 == 0 then .value (.int (k / 2)) else .refused
+    | _ => .refused
+  | "tagged" =>
+    match l with
+    | .str s => .value (.dict [("v", .str s)])
+    | _ => .refused
+  | _ => defaultScalarParseLiteral n l
+
+def regOfWire (j : J) : Reg :=
+  let impls : List (String × String) := (j.arrD "types").filterMap fun t =>
+    if t.strD "kind" == "custom" then some (t.strD "name", t.strD "impl" "identity") else none
+  let implOf (n : String) : String := ((impls.find? fun p => p.1 == n).map (·.2)).getD "identity"
+  { types := (j.arrD "types").map namedOfWire,
+    customParse := fun n v => sampleParse (implOf n) n v,
+    customParseLiteral := fun n l => sampleParseLiteral (implOf n) n l }
 
 def pairs {α} (f : J → α) (j : J) (k : String) : List (String × α) :=
   (j.arrD k).map fun kv =>
@@ -142,6 +175,37 @@ def item (reg : Reg) (fuel : Nat) (j : J) : J :=
     let vt := Driver.tyOfJson (j.getD "vt")
     let lt := Driver.tyOfJson (j.getD "lt")
     .obj [("sub", .bool (isSubtype vt lt)), ("allowed", .bool (allowedUsage vt (j.boolD "vdef") lt (j.boolD "ldef")))]
+  | "tree" =>
+    let vardefs : List VarDef := (j.arrD "vardefs").map fun d =>
+      { name := d.strD "name", type := Driver.tyOfJson (d.getD "type"),
+        default := match d.get? "default" with | some l@(.obj _) => some (litOfWire l) | _ => none }
+    let variables := pairs jvOfWire j "variables"
+    let table : List (String × String × List InField) := (j.arrD "argtable").map fun e =>
+      (e.strD "ty", e.strD "field", (e.arrD "argdefs").map fieldOfWire)
+    let tbl : ArgTable := fun ty f => (table.find? fun e => e.1 == ty && e.2.1 == f).map (·.2.2)
+    let wtab : List (String × String × Nat × RVal) := (j.arrD "world").map fun e =>
+      let rv : RVal := match e.getD "r" with
+        | .str "leaf" => .leaf
+        | .str "raised" => .raised
+        | r@(.obj _) =>
+          match r.get? "obj", r.get? "objs" with
+          | some (.str t), _ => .obj t
+          | _, some (.arr items) => .objs (items.map fun i => match i with | .str t => some t | _ => none)
+          | _, _ => .null
+        | _ => .null
+      (e.strD "ty", e.strD "field", e.natD "depth", rv)
+    let w : TWorld := fun ty f p _ =>
+      match wtab.find? fun e => e.1 == ty && e.2.1 == f && e.2.2.1 == p.length with
+      | some e => e.2.2.2
+      | none => .null
+    let segs (p : RPath) : J := .arr (p.map fun s => match s with | .key k => .str k | .idx i => J.ofNat i)
+    let evs := executeTree reg fuel (j.natD "depthFuel" 32) vardefs variables tbl w (j.strD "root") ((j.arrD "sels").map selOfWire)
+    .obj [("events", .arr (evs.map fun ev =>
+      match ev with
+      | .call p ty f kw => .obj [("call", segs p), ("ty", .str ty), ("field", .str f), ("kw", kwToWire kw)]
+      | .fieldError p => .obj [("fieldError", segs p)]
+      | .requestError => .str "requestError"
+      | .crash => .str "crash"))]
   | "trace" =>
     let vardefs : List VarDef := (j.arrD "vardefs").map fun d =>
       { name := d.strD "name", type := Driver.tyOfJson (d.getD "type"),
@@ -165,6 +229,17 @@ def handleC07 (j : J) : J :=
     let reg := C07Codec.regOfWire (j.getD "reg")
     let fuel := j.natD "fuel" 400
     .obj [("r", .arr ((j.arrD "items").map (C07Codec.item reg fuel)))]
+  | "pynum" =>
+    let str := j.strD "s"
+    let fl : J := match PyGql.PyNum.pyFloat str with
+      | none => .null
+      | some d =>
+        match d with
+        | .finite neg m e => .obj [("cls", .str "finite"), ("neg", .bool neg), ("m", J.ofNat m), ("e", .num e),
+                                   ("int", J.ofOpt .num d.integral)]
+        | .inf neg => .obj [("cls", .str "inf"), ("neg", .bool neg)]
+        | .nan => .obj [("cls", .str "nan")]
+    .obj [("i10", J.ofOpt .num (PyGql.PyNum.pyInt10 str)), ("flt", fl)]
   | "int_range" => .obj [("ok", .bool (PyGql.Generated.Scalars.intInRange (j.intD "n")))]
   | _ => .obj [("error", .str "bad-op")]
 
